@@ -75,6 +75,7 @@ def spice(rng, prog, ci, mfs):
             blk = {'op': 'txn', 'body': copy.deepcopy(body), 'retry': True}
             if rng.random() < 0.5:
                 blk['raise_at'] = rng.randint(0, len(body))
+                blk['raise_kind'] = rng.choice(('exc', 'base'))
             out.append(blk)
         elif r < 0.14:
             out.append({'op': 'set', 'k': 'sur', 'v': {'big': ['str', mfs + 5, 'x']}, 'surrogate': True})
